@@ -28,8 +28,8 @@ FLOORS = {'snapshots_compared': 1500, 'effective_option_cases': 1000,
           'aborted_runs': 500, 'kbint_runs': 300, 'option_effect_probes': 1400,
           'warnoptions_cases': 200,
           'application_traceback_functions': 200,
-          'application_trace_hook_under_coverage': 60,
-          'tests_clearing_the_trace_hook_under_coverage': 40,
+          'application_trace_hook_under_coverage': 40,
+          'tests_clearing_the_trace_hook_under_coverage': 15,
           'nested_runs': 150}
 BATCH_TIMEOUT = 600
 
